@@ -318,10 +318,10 @@ def load_known():
 class Check:
     """One run of one property check."""
 
-    def __init__(self, prop, tier, seed):
+    def __init__(self, prop, tier, seed, suffix=""):
         self.prop, self.tier, self.seed = prop, tier, seed
         self.t0 = time.time()
-        self.work = os.path.join(WORK, "%s_%s_%d" % (prop, tier, os.getpid()))
+        self.work = os.path.join(WORK, "%s_%s_%d%s" % (prop, tier, os.getpid(), suffix))
         if os.path.exists(self.work):
             shutil.rmtree(self.work)
         os.makedirs(self.work)
@@ -344,7 +344,7 @@ class Check:
     def fail(self, sig, what, detail=None, scenario=None):
         self.failures.append({"sig": sig, "what": what, "detail": detail, "scenario": scenario})
 
-    def write_replay(self, f):
+    def write_replay(self, f, path=None):
         os.makedirs(os.path.join(VERIF, "replays"), exist_ok=True)
         body = {"property": self.prop, "tier": self.tier, "seed": self.seed, "signature": f["sig"],
                 "what": f["what"], "detail": f["detail"], "scenario": f["scenario"],
@@ -353,7 +353,7 @@ class Check:
                 "repo_diff_sha": hashlib.sha1(subprocess.run(["git", "-C", REPO, "diff"], capture_output=True)
                                               .stdout).hexdigest()}
         h = hashlib.sha1(canon(body).encode()).hexdigest()[:10]
-        path = os.path.join(VERIF, "replays", "%s-%s.json" % (self.prop, h))
+        path = path or os.path.join(VERIF, "replays", "%s-%s.json" % (self.prop, h))
         with open(path, "w") as fh:
             json.dump(body, fh, indent=1, sort_keys=True)
         return path
@@ -370,6 +370,10 @@ class Check:
                     hit = k
                     break
             if hit:
+                dump = os.environ.get("VERIF_DUMP_KNOWN")     # developer aid: pin a scenario of each listed finding
+                if dump and hit["id"] not in reported_known and f.get("scenario"):
+                    os.makedirs(dump, exist_ok=True)
+                    self.write_replay(f, os.path.join(dump, hit["id"] + ".json"))
                 reported_known.setdefault(hit["id"], (hit, 0))
                 reported_known[hit["id"]] = (hit, reported_known[hit["id"]][1] + 1)
             elif f["sig"] not in seen:
